@@ -72,6 +72,7 @@ class SimThread:
         self.prio = 0.0
         self.in_handler = False
         self.nsig = 0             # python-level signal handlers run on this thread so far
+        self.pending_commit = None  # rest of a write chunk the kernel has accepted but whose arrival is still being spread
         self.tls = {}
         self.prev_code = None
         self.ndp = 0
@@ -865,6 +866,12 @@ class Sim:
         for t in p.threads:
             if t.state in (RUNNABLE, BLOCKED, NEW):
                 t.state = FROZEN
+            pc = t.pending_commit
+            if pc is not None:
+                t.pending_commit = None
+                if pc[2] < pc[3]:
+                    kernel._put(self, pc[0], pc[1][pc[2]:pc[3]])
+                    self.ev('write-committed-before-death', t.name, pc[4], pc[3] - pc[2])
             half = getattr(t, 'spawning', None)
             if half is not None:
                 # the process died while one of its threads was handing a child its start-up data (spawn): the real child's
